@@ -81,6 +81,13 @@ CLAIMED = {
             'setPolarity/clearPolarity pairing per class, clearSolver coverage against the reference tree, getReasonFor bracket. Necessary conditions for '
             '"retracted literals leave no trace"; that each undo action restores the right content is not decided.',
             'static analysis: path-sensitive call-count / MUST-CALL walk, guard-set comparison and exhaustiveness rules over the structured mini-AST', ''),
+    'C26': ('other',
+            'Static: Simplex::getConflictingBounds is interpreted abstractly for the four cases (coefficient sign x conflict direction), enumerating every path of the '
+            'loop body: exactly one bound of every row variable is cited, of the kind cancellation requires, with a coefficient of abstract sign positive; the violated '
+            'bound of the basic variable comes first with weight 1; the two-literal conflicts of assertBound have positive literal weights and opposite kinds; '
+            'storeExplanation stores bound and coefficient unchanged and is the single writer of the vector both interpolators read. Necessary shape of every row '
+            'certificate; the numeric cancellation (tableau values) is not decided.',
+            'static analysis: special-purpose abstract interpretation (sign domain, case split on the two guards) over the structured mini-AST + dataflow/who-writes rules', ''),
 }
 
 NOT_APPLICABLE = {
